@@ -11,3 +11,9 @@ U('C01', 'C01_step.cpp', defines=dict(DIM=4, NB=3, SB=4, FB=1), unwind=6, timeou
 # ---- C02 iterators, flat element ranges
 for d in (1, 2, 3):
     U('C02', 'C02_iter.cpp', defines=dict(DIM=d, NB=3, SB=6), unwind=6, timeout=900)
+
+# ---- C19 index bases (the C01 step family and C02 iterator laws also run with index bases; here: creation of bases + flat ranges on re-based views)
+for d in (1, 2, 3):
+    U('C19', 'C19_rebase.cpp', defines=dict(DIM=d, NB=3, SB=6), unwind=6, timeout=900)
+for d in (1, 2):
+    U('C19', 'C02_iter.cpp', name='C19_elements_rebased_DIM%d' % d, defines=dict(DIM=d, NB=3, SB=6, EFB=2), entries=['elements_shape', 'elements_index', 'elements_movement'], unwind=6, timeout=900)
